@@ -37,6 +37,54 @@ type skel struct {
 	fset   *token.FileSet
 	inodes map[string]bool // inode-typed variables of the current function
 	stats  struct{ stmts, classified int }
+	// mutex mode (genMutexSkeleton): the "variable" is the struct's own mutex "mu"; an access to a
+	// guarded field of the receiver, or a call of a method that assumes the mutex, is a use of it
+	mutex    bool
+	recv     string
+	guarded  map[string]bool
+	assuming map[string]bool
+}
+
+// muCall recognises recv.mu.Lock() / recv.mu.Unlock()
+func (k *skel) muCall(e ast.Expr, what string) bool {
+	ce, ok := e.(*ast.CallExpr)
+	if !ok {
+		return false
+	}
+	se, ok := ce.Fun.(*ast.SelectorExpr)
+	if !ok || se.Sel.Name != what {
+		return false
+	}
+	in, ok := se.X.(*ast.SelectorExpr)
+	if !ok || in.Sel.Name != "mu" {
+		return false
+	}
+	id, ok := in.X.(*ast.Ident)
+	return ok && id.Name == k.recv
+}
+
+// mutexUses: does the node touch a guarded field of the receiver (or call a method that assumes the mutex)?
+func (k *skel) mutexUses(n ast.Node) []string {
+	found := false
+	ast.Inspect(n, func(m ast.Node) bool {
+		if se, ok := m.(*ast.SelectorExpr); ok {
+			if id, ok := se.X.(*ast.Ident); ok && id.Name == k.recv && (k.guarded[se.Sel.Name] || k.assuming[se.Sel.Name]) {
+				found = true
+			}
+		}
+		return true
+	})
+	if found {
+		return []string{"mu"}
+	}
+	return nil
+}
+
+func (k *skel) ends(n ast.Node) bool {
+	if k.mutex {
+		return false
+	}
+	return endsTxn(n)
 }
 
 func isInodeType(e ast.Expr) bool {
@@ -64,6 +112,12 @@ func callName(ce *ast.CallExpr) string {
 // uses returns the inode variables whose object an expression touches
 // (comparisons with nil and plain pointer copies into other inode variables excepted).
 func (k *skel) uses(n ast.Node) []string {
+	if k.mutex {
+		if n == nil {
+			return nil
+		}
+		return k.mutexUses(n)
+	}
 	seen := map[string]bool{}
 	var walk func(n ast.Node)
 	walk = func(n ast.Node) {
@@ -205,6 +259,16 @@ func endsTxn(n ast.Node) bool {
 func (k *skel) stmt(s ast.Stmt) string {
 	k.stats.stmts++
 	k.stats.classified++
+	if k.mutex {
+		if es, ok := s.(*ast.ExprStmt); ok {
+			if k.muCall(es.X, "Lock") {
+				return ".acq " + q("mu")
+			}
+			if k.muCall(es.X, "Unlock") {
+				return ".fin"
+			}
+		}
+	}
 	switch x := s.(type) {
 	case *ast.BlockStmt:
 		return k.block(x.List)
@@ -256,7 +320,7 @@ func (k *skel) stmt(s ast.Stmt) string {
 			if ce, ok := r.(*ast.CallExpr); ok && acquiring[callName(ce)] {
 				acq = true
 			}
-			if endsTxn(r) {
+			if k.ends(r) {
 				parts = append(parts, ".fin")
 			}
 		}
@@ -299,7 +363,7 @@ func (k *skel) stmt(s ast.Stmt) string {
 		return seqOf(parts)
 	case *ast.ExprStmt:
 		parts := k.useEvents(x.X)
-		if endsTxn(x.X) {
+		if k.ends(x.X) {
 			parts = append(parts, ".fin")
 		}
 		if ce, ok := x.X.(*ast.CallExpr); ok && callName(ce) == "panic" {
@@ -333,7 +397,7 @@ func (k *skel) stmt(s ast.Stmt) string {
 			parts = append(parts, k.stmt(x.Init))
 		}
 		parts = append(parts, k.useEvents(x.Cond)...)
-		if endsTxn(x.Cond) {
+		if k.ends(x.Cond) {
 			parts = append(parts, ".fin")
 		}
 		thenS := k.block(x.Body.List)
@@ -565,6 +629,13 @@ func genSkeleton() string {
 			total.stats.classified += k.stats.classified
 		}
 	}
+	mnames, mfields := genMutexSkeleton(&b, total)
+	b.WriteString("/-- every method of a struct with its own mutex `mu` (its name, (held at entry, its skeleton)): `mu` is\n    acquired by `mu.Lock()`, released by `mu.Unlock()`, used by every access to a guarded field -/\n")
+	b.WriteString("def mutexHandlers : List (String × (List String × Sk)) := [\n  ")
+	b.WriteString(strings.Join(mnames, ",\n  "))
+	b.WriteString("\n]\n\n")
+	b.WriteString("/-- the structs with a mutex and the fields counted as guarded by it -/\n")
+	b.WriteString("def mutexGuardedFields : List (String × List String) := [" + strings.Join(mfields, ", ") + "]\n\n")
 	b.WriteString("/-- every function with (its name, (inode variables live at entry, its skeleton)) -/\n")
 	b.WriteString("def handlers : List (String × (List String × Sk)) := [\n  ")
 	b.WriteString(strings.Join(names, ",\n  "))
@@ -572,4 +643,198 @@ func genSkeleton() string {
 	fmt.Fprintf(&b, "def statementsSeen : Nat := %d\ndef statementsClassified : Nat := %d\n", total.stats.stmts, total.stats.classified)
 	b.WriteString("\nend GoNfsd.Gen.Skeleton\n")
 	return b.String()
+}
+
+// genMutexSkeleton: for every struct of the module that carries its own mutex (a field `mu`),
+// the skeleton of each of its methods over the events
+//   acq "mu"  = recv.mu.Lock()      fin = recv.mu.Unlock()
+//   use "mu"  = an access to a guarded field of the receiver, or a call of a method of the
+//               struct that touches guarded fields without locking (it assumes the mutex)
+// A method that locks starts with the mutex released; a method that assumes the mutex starts with
+// it held.  Guarded fields: maps, *list.List, and every field assigned in some method.
+func genMutexSkeleton(b *strings.Builder, total *skel) (names []string, fieldsOut []string) {
+	dirs, err := filepath.Glob(filepath.Join(repo, "*"))
+	if err != nil {
+		fail("mutex skeleton: %v", err)
+	}
+	sort.Strings(dirs)
+	for _, dir := range dirs {
+		base := filepath.Base(dir)
+		if base == "cmd" || base == "bench" || base == "eval" || base == "artifact" || strings.HasPrefix(base, ".") {
+			continue
+		}
+		gofiles, _ := filepath.Glob(filepath.Join(dir, "*.go"))
+		sort.Strings(gofiles)
+		fset := token.NewFileSet()
+		var files []*ast.File
+		for _, gf := range gofiles {
+			if strings.HasSuffix(gf, "_test.go") || strings.HasPrefix(filepath.Base(gf), "verif_") {
+				continue
+			}
+			f, err := parser.ParseFile(fset, gf, nil, 0)
+			if err != nil {
+				fail("mutex skeleton: %v", err)
+			}
+			files = append(files, f)
+		}
+		// structs with a field `mu`
+		type st struct {
+			fields  []string
+			guarded map[string]bool
+		}
+		structs := map[string]*st{}
+		var order []string
+		for _, f := range files {
+			ast.Inspect(f, func(n ast.Node) bool {
+				ts, ok := n.(*ast.TypeSpec)
+				if !ok {
+					return true
+				}
+				stt, ok := ts.Type.(*ast.StructType)
+				if !ok {
+					return true
+				}
+				hasMu := false
+				x := &st{guarded: map[string]bool{}}
+				for _, fl := range stt.Fields.List {
+					for _, nm := range fl.Names {
+						if nm.Name == "mu" {
+							hasMu = true
+							continue
+						}
+						x.fields = append(x.fields, nm.Name)
+						switch t := fl.Type.(type) {
+						case *ast.MapType:
+							x.guarded[nm.Name] = true
+						case *ast.StarExpr:
+							if se, ok := t.X.(*ast.SelectorExpr); ok {
+								if pk, ok := se.X.(*ast.Ident); ok && pk.Name == "list" {
+									x.guarded[nm.Name] = true
+								}
+							}
+						}
+					}
+				}
+				if hasMu {
+					structs[ts.Name.Name] = x
+					order = append(order, ts.Name.Name)
+				}
+				return true
+			})
+		}
+		if len(structs) == 0 {
+			continue
+		}
+		recvOf := func(fd *ast.FuncDecl) (typ, name string) {
+			if fd.Recv == nil || len(fd.Recv.List) != 1 || len(fd.Recv.List[0].Names) != 1 {
+				return "", ""
+			}
+			t := fd.Recv.List[0].Type
+			if se, ok := t.(*ast.StarExpr); ok {
+				t = se.X
+			}
+			if id, ok := t.(*ast.Ident); ok {
+				return id.Name, fd.Recv.List[0].Names[0].Name
+			}
+			return "", ""
+		}
+		var methods []*ast.FuncDecl
+		for _, f := range files {
+			for _, d := range f.Decls {
+				if fd, ok := d.(*ast.FuncDecl); ok && fd.Body != nil {
+					if t, _ := recvOf(fd); structs[t] != nil {
+						methods = append(methods, fd)
+					}
+				}
+			}
+		}
+		// fields assigned in some method are guarded
+		for _, fd := range methods {
+			t, rv := recvOf(fd)
+			x := structs[t]
+			fieldOf := func(e ast.Expr) string {
+				if ie, ok := e.(*ast.IndexExpr); ok {
+					e = ie.X
+				}
+				if se, ok := e.(*ast.SelectorExpr); ok {
+					if id, ok := se.X.(*ast.Ident); ok && id.Name == rv {
+						return se.Sel.Name
+					}
+				}
+				return ""
+			}
+			ast.Inspect(fd.Body, func(n ast.Node) bool {
+				switch a := n.(type) {
+				case *ast.AssignStmt:
+					for _, l := range a.Lhs {
+						if f := fieldOf(l); f != "" && f != "mu" {
+							x.guarded[f] = true
+						}
+					}
+				case *ast.IncDecStmt:
+					if f := fieldOf(a.X); f != "" && f != "mu" {
+						x.guarded[f] = true
+					}
+				}
+				return true
+			})
+		}
+		// methods that touch guarded fields without locking assume the mutex (closed under calls)
+		assuming := map[string]map[string]bool{}
+		locking := map[*ast.FuncDecl]bool{}
+		for _, t := range order {
+			assuming[t] = map[string]bool{}
+		}
+		for _, fd := range methods {
+			_, rv := recvOf(fd)
+			k := &skel{mutex: true, recv: rv}
+			ast.Inspect(fd.Body, func(n ast.Node) bool {
+				if e, ok := n.(ast.Expr); ok && k.muCall(e, "Lock") {
+					locking[fd] = true
+				}
+				return true
+			})
+		}
+		for changed := true; changed; {
+			changed = false
+			for _, fd := range methods {
+				t, rv := recvOf(fd)
+				if locking[fd] || assuming[t][fd.Name.Name] {
+					continue
+				}
+				k := &skel{mutex: true, recv: rv, guarded: structs[t].guarded, assuming: assuming[t]}
+				if len(k.mutexUses(fd.Body)) > 0 {
+					assuming[t][fd.Name.Name] = true
+					changed = true
+				}
+			}
+		}
+		for _, fd := range methods {
+			t, rv := recvOf(fd)
+			k := &skel{fset: fset, inodes: map[string]bool{}, mutex: true, recv: rv, guarded: structs[t].guarded, assuming: assuming[t]}
+			body := k.block(fd.Body.List)
+			held := "[]"
+			if assuming[t][fd.Name.Name] {
+				held = "[" + q("mu") + "]"
+			} else {
+				// released at entry: acquired and released once before the body
+				body = ".seq [.acq " + q("mu") + ", .fin, " + body + "]"
+			}
+			name := "mu_" + base + "_" + t + "_" + fd.Name.Name
+			fmt.Fprintf(b, "def %s : List String × Sk := (%s, %s)\n\n", name, held, body)
+			names = append(names, fmt.Sprintf("(%s, %s)", q(name), name))
+			total.stats.stmts += k.stats.stmts
+			total.stats.classified += k.stats.classified
+		}
+		for _, t := range order {
+			var g []string
+			for _, f := range structs[t].fields {
+				if structs[t].guarded[f] {
+					g = append(g, q(f))
+				}
+			}
+			fieldsOut = append(fieldsOut, fmt.Sprintf("(%s, [%s])", q(base+"."+t), strings.Join(g, ", ")))
+		}
+	}
+	return names, fieldsOut
 }
